@@ -1525,8 +1525,9 @@ def _run_far(case, ctx):
                 ctx.violation("far_state_step_raised", {**cfg, "exc": type(res).__name__}, detail=f"a transition from a current state of norm {np.linalg.norm(far):.3g} (draw scale {rho:.3g}) raised {res!r}")
                 break
             x_start, x, w, sm = res
-            if case["via"] == "preceding" and not np.linalg.norm(x_start - far) <= 1e-6 * np.linalg.norm(far):
-                ctx.inconclusive("preceding step did not land on the intended far state"); break
+            # the judged step starts wherever the preceding step actually landed (its own accuracy is tol-limited)
+            if case["via"] == "preceding" and not np.linalg.norm(x_start) >= 0.5 * np.linalg.norm(far):
+                ctx.inconclusive("preceding step did not land far away"); break
             _far_judge(ctx, cfg, H, x_start, x_star, x, tol, w, "LinearRTO " + ("zero perturbation" if g is None else "random perturbation"))
         ctx.nontrivial(); return
 
